@@ -34,7 +34,22 @@ func caseVariants(s string) []string {
 			mixed[i] -= 32
 		}
 	}
-	return []string{s, strings.ToLower(s), string(mixed)}
+	out := []string{s, strings.ToLower(s), string(mixed)}
+	// canonical prefix with the rest in lower case, and the reverse; exactly one letter lowered, at
+	// every position (a shortcut keyed on how a name starts, or a fold that misses one letter or one
+	// position, passes the three spellings above)
+	if i := strings.Index(s, "_"); i > 0 {
+		out = append(out, s[:i+1]+strings.ToLower(s[i+1:]), strings.ToLower(s[:i+1])+s[i+1:])
+		if j := strings.Index(s[i+1:], "_"); j > 0 {
+			out = append(out, s[:i+1+j+1]+strings.ToLower(s[i+1+j+1:]))
+		}
+	}
+	for i := 0; i < len(s); i++ {
+		if s[i] >= 'A' && s[i] <= 'Z' {
+			out = append(out, s[:i]+strings.ToLower(s[i:i+1])+s[i+1:])
+		}
+	}
+	return out
 }
 
 type c15Lookup struct {
@@ -139,7 +154,7 @@ func c15Table(r *ev.Run) int64 {
 			r.Outcome("unknown-rejected")
 		}
 	}
-	r.Completed(fmt.Sprintf("(a) all %d names of the reference table x 3 spellings x mask off/on; 7 unknown names", len(names)))
+	r.Completed(fmt.Sprintf("(a) all %d names of the reference table x every spelling of {as is, lower, alternating, upper prefix + lower rest, lower prefix + upper rest, one letter lowered at each position} x mask off/on (%d lookups); 7 unknown names", len(names), n))
 	return n
 }
 
